@@ -1,3 +1,4 @@
+import Sparrow.Proofs.ExchangeGlueEquiv
 import Sparrow.Proofs.BakeKernelEquiv
 import Sparrow.Proofs.KernelCorollaries
 import Sparrow.Proofs.KernelEquiv
@@ -184,3 +185,21 @@ theorem addDirectional_eq (P D nIn B W T : Nat) (energy_0 : Nat → Nat → ℝ)
   Sparrow.addDirectional_eq P D nIn B W T energy_0 src pc wall sources receivers scat sidx vis F area att s0 s1 s2 s3 s4 s5 i d b hi
 
 end Sparrow.Props.C03.BakeKernels
+
+namespace Sparrow.Props.C03.ExchangeGlue
+open Sparrow Sparrow.Generated.ExchangeGlue Sparrow.Generated.Kernels
+
+/-- the new histogram is the model's `etc` (order `K ≥ 1`) of the scene read off the stored state and THIS call's
+    speed of sound, resolution and duration, with the patch distances the centre distances -/
+theorem calculateEnergyExchange_etc (P D B nVis : Nat) (pc : Nat → Nat → ℝ) (d0 : Nat → ℝ) (e0 : Nat → Nat → Nat → ℝ)
+    (fft : Nat → Nat → Nat → Nat → ℝ) (p2o : Nat → Nat → Nat) (vp : Nat → Nat → Nat)
+    (etc0 : Option (Nat → Nat → Nat → Nat → ℝ)) (dt0 c0 dur0 : Option ℝ) (c dt dur : ℝ) (K : Int) (recalc : Bool)
+    (s0 s3 s4 s7 : Nat) (junk : Nat → Nat → ℝ) (h : etc0.isNone = true ∨ recalc = true) (hK : 1 ≤ K) :
+    ∃ Dm : Nat → Nat → ℝ, (∀ i j, i < P → j < P → Dm i j = exDist pc i j) ∧ ∃ E,
+      (calculateEnergyExchange P 3 pc s0 d0 P D B e0 P P D B fft s3 s4 p2o nVis s7 vp P etc0 dt0 c0 dur0 c dt dur K recalc junk).1 = some E ∧
+      ∀ b j d t, (exSceneOfArgs (ToBin.floorNat (dur / dt)) P D e0 d0 Dm fft p2o c dt nVis vp b).WF →
+        j < P → d < D → t < ToBin.floorNat (dur / dt) →
+        E j d b t = etc (exSceneOfArgs (ToBin.floorNat (dur / dt)) P D e0 d0 Dm fft p2o c dt nVis vp b) K.toNat j d t :=
+  Sparrow.calculateEnergyExchange_etc P D B nVis pc d0 e0 fft p2o vp etc0 dt0 c0 dur0 c dt dur K recalc s0 s3 s4 s7 junk h hK
+
+end Sparrow.Props.C03.ExchangeGlue
